@@ -28,7 +28,8 @@ THEOREMS = ["generated_wf", "square_is_mul", "absolute_is_abs", "limits_square_a
             "hypot_constants", "sqrt2_bounds", "ties_hypot", "hypot_accuracy", "hypot_generated", "hypot_hypotheses_satisfiable",
             "hypot_kinds", "soft_sqrt_correctly_rounded", "soft_refines_rational_sqrt", "hypot_bit_level_f32", "hypot_bit_level_f64",
             "Lmax_values", "Lmax_ge4", "soft_refines_rational_forward", "hypot_total_f32", "hypot_total_f64",
-            "hypot_f32_at_x_pinf", "hypot_f32_at_x_ninf", "hypot_f32_at_pinf_x", "hypot_f32_at_ninf_x", "hypot_f64_at_x_pinf", "hypot_f64_at_x_ninf", "hypot_f64_at_pinf_x", "hypot_f64_at_ninf_x"]
+            "hypot_f32_at_x_pinf", "hypot_f32_at_x_ninf", "hypot_f32_at_pinf_x", "hypot_f32_at_ninf_x", "hypot_f64_at_x_pinf", "hypot_f64_at_x_ninf", "hypot_f64_at_pinf_x", "hypot_f64_at_ninf_x",
+            "hypot_f32_at_x_pzero_shape", "hypot_f32_at_x_pzero", "hypot_f32_at_x_nzero_shape", "hypot_f32_at_x_nzero", "hypot_f32_at_pzero_x_shape", "hypot_f32_at_pzero_x", "hypot_f32_at_nzero_x_shape", "hypot_f32_at_nzero_x", "hypot_f64_at_x_pzero_shape", "hypot_f64_at_x_pzero", "hypot_f64_at_x_nzero_shape", "hypot_f64_at_x_nzero", "hypot_f64_at_pzero_x_shape", "hypot_f64_at_pzero_x", "hypot_f64_at_nzero_x_shape", "hypot_f64_at_nzero_x"]
 SEARCHED = ["4 ULP (float32) / 5 ULP (float64) bound", "fewer than 1 in 1e5 inputs above 3 ULP", "NaN exactly where undefined", "exact limits at infinities and zero"]
 TRUSTED = [
     "Lean 4 kernel; axioms propext, Classical.choice, Quot.sound only",
@@ -297,7 +298,7 @@ def run(ctx):
                 "float64: log-uniform samples + the same boundary sets; hypot: pairs (independent, nearby exponents, thresholds) + lattice; "
                 "non-trivial = finite input with a determined reference; distinct by input bits")
     progs, errors = generate(ctx)
-    broken = ctx.lean_stage(["FAVerif.Props.C02", "FAVerif.Props.C02Hypot", "FAVerif.Props.C02HypotBits", "FAVerif.Props.C02HypotTotal", "FAVerif.Props.C02HypotLimits"], THEOREMS)
+    broken = ctx.lean_stage(["FAVerif.Props.C02", "FAVerif.Props.C02Hypot", "FAVerif.Props.C02HypotBits", "FAVerif.Props.C02HypotTotal", "FAVerif.Props.C02HypotLimits", "FAVerif.Props.C02HypotZero"], THEOREMS)
     for k, e in errors.items():
         broken.append(ctx.broken(f"translate:{k}", e))
     n64 = ctx.scale(4000, 200000)
